@@ -347,7 +347,8 @@ func (x *Exec) frontBuiltin(env *SpecEnv, st *State, name string, args []TV) (TV
 		return TV{}, false
 	case "recovers":
 		// recovers(): the function under contract has, at this point, registered a deferred function whose body
-		// calls recover() — a panic raised by the call at hand does not leave the function
+		// calls recover() and which captures every (named) result of the function — a panic raised by the call at
+		// hand does not leave the function, and what the recovering function assigns is what the caller gets
 		if len(args) == 0 && len(st.frames) > 0 {
 			for _, d := range st.frames[0].defers {
 				var fn *ssa.Function
@@ -363,7 +364,24 @@ func (x *Exec) frontBuiltin(env *SpecEnv, st *State, name string, args []TV) (TV
 					for _, in := range b.Instrs {
 						if c, ok := in.(*ssa.Call); ok {
 							if bi, ok := c.Call.Value.(*ssa.Builtin); ok && bi.Name() == "recover" {
-								return TV{VScalar{TTrue}, boolT}, true
+								// what the recovering function assigns reaches the caller only through named
+								// results that it captures: with unnamed results the values returned after a
+								// recovered panic are the zero values - for (value, error) that is "no error"
+								top := st.frames[0].fn
+								res := top.Signature.Results()
+								all := true
+								for i := 0; i < res.Len(); i++ {
+									found := false
+									for _, fv := range fn.FreeVars {
+										if res.At(i).Name() != "" && fv.Name() == res.At(i).Name() {
+											found = true
+										}
+									}
+									if !found {
+										all = false
+									}
+								}
+								return TV{VScalar{BoolLit(all)}, boolT}, true
 							}
 						}
 					}
